@@ -148,6 +148,9 @@ def main():
     # pharmpy.modeling function that takes a model and needs no further argument (or has an entry in the harness's
     # argument table) is called on three start models and a deep snapshot of the INPUT model must be unchanged
     run_probes(run, [(Ob('no_mutation', 'C06_frame.py', 'no_mutation', env={}), 'no_mutation(8)'),
+                     (Ob('results_wellformed', 'C06_frame.py', 'results_wellformed', env={}), 'results_wellformed(8)'),
+                     (Ob('results_wellformed_known', 'C06_frame.py', 'results_wellformed', env={}),
+                      'results_wellformed(1, known_only=True)'),
                      (Ob('replace_validates', 'C06_frame.py', 'replace_validates', env={}), 'replace_validates()'),
                      (Ob('replace_validates_omitted', 'C06_frame.py', 'replace_validates', env={}),
                       'replace_validates(omitted=True)')])
